@@ -211,7 +211,7 @@ impl OutputFormat for IcyDraw {
                     let real_length = get_invisible_line_length(layer, y);
                     for x in 0..real_length {
                         let ch = layer.get_char((x, y));
-                        let mut attr = ch.attribute.attr;
+                        let mut attr = if ch.is_visible() { ch.attribute.attr } else { attribute::INVISIBLE };
 
                         let is_short = if ch.is_visible()
                             && ch.ch as u32 <= 255
@@ -264,7 +264,7 @@ impl OutputFormat for IcyDraw {
 
                         for x in 0..real_length {
                             let ch = layer.get_char((x, y));
-                            let mut attr = ch.attribute.attr;
+                            let mut attr = if ch.is_visible() { ch.attribute.attr } else { attribute::INVISIBLE };
 
                             let is_short = if ch.is_visible()
                                 && ch.ch as u32 <= 255
